@@ -116,9 +116,11 @@ def run_shard(tier, seed, idx, n, res, tmp):
                     catch_all = getattr(dt, 'catch_all_field', None)
                     validator = pkg.validator(nsname, dt.name)
                     for label, ex in dt.get_examples().items():
-                        if _contains_catch_all(ex.value):
-                            # the implicit catch-all example (and examples embedding it through a
-                            # reference or a `= other` default) cannot be sent by design (C06)
+                        embeds_catch_all = _contains_catch_all(ex.value)
+                        if embeds_catch_all and _plain(ex.value) == {'.tag': label} and \
+                                any(f.catch_all and f.name == label for f in getattr(dt, 'all_fields', ())
+                                    if hasattr(f, 'catch_all')):
+                            # the implicit example of the catch-all tag itself: exempt by the property
                             res.skip('implicit_catch_all_example')
                             continue
                         res.evaluations += 1
@@ -131,6 +133,12 @@ def run_shard(tier, seed, idx, n, res, tmp):
                         try:
                             val = ss.json_compat_obj_decode(validator, _plain(ex.value), strict=True)
                         except bv.ValidationError as e:
+                            if embeds_catch_all and 'catch-all' in str(e):
+                                # an example naming the catch-all tag (through a reference or a
+                                # `= other` default) is accepted by the compiler, refused by the decoder
+                                res.violation({'kind': 'example_embeds_catch_all_tag'},
+                                              {'error': str(e)[:300], 'example': ex.value, 'shape': shape}, replay)
+                                continue
                             res.violation({'kind': 'example_refused', 'shape': shape,
                                            'reason': _reason(str(e))},
                                           {'error': str(e)[:300], 'example': ex.value}, replay)
